@@ -42,6 +42,17 @@ func verifHarness_C18_paths() {
 	verifAssert(!c18Truncated && c18NumObligations > 50, "obligations-enumerated-from-the-types")
 	i := verifChoose("obligation", c18NumObligations)
 	var n, bad int
+	if verifParam("allchains", 0) == 1 {
+		// thorough: every chain length 0..12 with the invalid message at every position (or nowhere)
+		n = verifChoose("length", 13)
+		bad = verifChoose("bad-position", n+1) - 1
+	} else {
+		n, bad = c18Shape()
+	}
+	c18Run(i, n, bad)
+}
+
+func c18Shape() (n, bad int) {
 	switch verifChoose("chain", 7) {
 	case 0:
 		n, bad = 0, -1 // no failure at the end of the path
@@ -58,6 +69,10 @@ func verifHarness_C18_paths() {
 	case 6:
 		n, bad = 12, 0
 	}
+	return n, bad
+}
+
+func c18Run(i, n, bad int) {
 	chain := c18Chain(n, bad)
 	root := c18Build(i, chain)
 	verifAssert(root != nil, "obligation-materialised")
@@ -66,7 +81,7 @@ func verifHarness_C18_paths() {
 	if n > maxFailureDepth {
 		verifReach("beyond-supported-depth")
 		verifAssert(err != nil, "chain-beyond-supported-depth-is-reported:"+c18Path(i))
-		if bad < maxFailureDepth {
+		if bad >= 0 && bad < maxFailureDepth {
 			verifAssert(changed, "repair-reported:"+c18Path(i))
 		}
 		c18CheckChain(chain, n, c18Path(i))
